@@ -336,6 +336,34 @@ pub fn c04_native<G: AffineRepr + 'static>(case: &C04Case, seed: u64) -> Vec<(St
             out.push(("removed round: rejected".into(), !verify(&R1CSProof::verif_from_parts(pts, scs, InnerProductProof::verif_from_parts(l[1..].to_vec(), r[1..].to_vec(), a, b)))));
         }
     }
+    // the two blinding scalars sit on the same base with combined scalar -(e_blinding + r t_x_blinding):
+    // (t_x_blinding - d, e_blinding + r d) with the honest run's r -- accepted only if r does not depend on them
+    if let Some(r) = chal(b"r", 0) {
+        let (pts, scs, ipp) = proof.verif_parts();
+        let dd = G::ScalarField::from(seed + 5);
+        let forged = R1CSProof::verif_from_parts(pts, [scs[0], scs[1] - dd, scs[2] + r * dd], ipp.clone());
+        out.push(("coordinated shifts of t_x_blinding and e_blinding computed from the proof's own batching challenge: rejected".into(), !verify(&forged)));
+    }
+    // two round points: R_0 += D, R_1 -= (u_0^-2 / u_1^-2) D with the honest run's round challenges
+    if rounds >= 2 {
+        if let (Some(u0), Some(u1)) = (chal(b"u", 1), chal(b"u", 2)) {
+            let (pts, scs, ipp) = proof.verif_parts();
+            let (l, r, a, b) = ipp.verif_parts();
+            let D: G::Group = G::Group::rand(&mut rng);
+            let mut r2 = r.to_vec();
+            let f = (u0.inverse().unwrap() * u0.inverse().unwrap()) * (u1 * u1);
+            r2[0] = (r2[0].into_group() + D).into_affine();
+            r2[1] = (r2[1].into_group() - D * f).into_affine();
+            let forged = R1CSProof::verif_from_parts(pts, scs, InnerProductProof::verif_from_parts(l.to_vec(), r2, a, b));
+            out.push(("coordinated offsets on R_0 and R_1 computed from the proof's own round challenges: rejected".into(), !verify(&forged)));
+            let mut l2 = l.to_vec();
+            let fl = (u0 * u0) * (u1.inverse().unwrap() * u1.inverse().unwrap());
+            l2[0] = (l2[0].into_group() + D).into_affine();
+            l2[1] = (l2[1].into_group() - D * fl).into_affine();
+            let forged = R1CSProof::verif_from_parts(pts, scs, InnerProductProof::verif_from_parts(l2, r.to_vec(), a, b));
+            out.push(("coordinated offsets on L_0 and L_1 computed from the proof's own round challenges: rejected".into(), !verify(&forged)));
+        }
+    }
     // pairwise cancellation forgery on point fields whose protocol scalars are s_i:
     //   f_i += D, f_j += -(s_i/s_j) D   -- accepted only if neither field is bound to the challenges
     if let (Some(u), Some(x)) = (chal(b"u", 0), chal(b"x", 0)) {
@@ -383,6 +411,11 @@ pub fn c04_cases(thorough: bool) -> Vec<C04Case> {
     add(&twop, FieldId::B);
     add(&one, FieldId::A);
     add(&one, FieldId::Point(6));
+    add(&one, FieldId::Scalar(1));
+    add(&one, FieldId::Scalar(2));
+    let four_q = Shape::new("three_gates_pad4", &[Commit, AllocMul, AllocMul, Mul, Con], &[]);
+    add(&four_q, FieldId::R(0));
+    add(&four_q, FieldId::L(1));
     v.push(C04Case { name: "swap_A_I1_A_O1".into(), shape: two.clone(), fields: vec![FieldId::Point(0), FieldId::Point(1)], swap: true });
     v.push(C04Case { name: "swap_T_1_T_3".into(), shape: two.clone(), fields: vec![FieldId::Point(6), FieldId::Point(7)], swap: true });
     v.push(C04Case { name: "swap_L0_R0".into(), shape: two.clone(), fields: vec![FieldId::L(0), FieldId::R(0)], swap: true });
